@@ -8,6 +8,7 @@ from __future__ import annotations
 
 import hashlib
 import random
+import re
 
 
 def derive(seed: int | str, *labels: object) -> int:
@@ -23,9 +24,15 @@ def stream(seed: int | str, *labels: object) -> random.Random:
     return random.Random(derive(seed, *labels))
 
 
+_SANDBOX = re.compile(r"verif-\d+-\d+")
+
+
 def fingerprint(lines) -> str:
+    """SHA-256 of an event log.  The name of the per-run sandbox directory (it holds the worker's process id) is not part of
+    the execution: messages that quote a path inside it (an OSError, a diagnostic) are compared without it."""
     h = hashlib.sha256()
     for ln in lines:
+        ln = _SANDBOX.sub("verif-SANDBOX", ln)
         h.update(ln.encode("utf-8", "surrogatepass"))
         h.update(b"\n")
     return h.hexdigest()
